@@ -136,7 +136,12 @@ type c20Info struct {
 	otherSlot bool
 }
 
-func runC20(c c20Case, info *c20Info) *failure {
+func runC20(c c20Case, info *c20Info) (fl *failure) {
+	defer func() {
+		if r := recover(); r != nil {
+			fl = newFail("runtime panic", "C20 %v", r)
+		}
+	}()
 	for _, which := range []string{"v1", "v2"} {
 		l := &c20Log{}
 		var d drv.Real
